@@ -60,9 +60,10 @@ OnEval(e) ==
   <<IF ~ValidIds(e.rows) THEN "C02.EvaluatesOnlyLibraryRows" ELSE "",
     IF ValidIds(e.rows) /\ \E j \in DOMAIN e.rows : e.ll[j] # lib.ref[e.rows[j]] THEN "C05.SameValueOnEveryPath" ELSE "">>
 
-OnChoice(e) ==
-  <<IF c.nchoice > 0 THEN "C02.SingleShuffle" ELSE "",
-    IF e.replace \/ ~Distinct(e.result) \/ ~ValidIds(e.result) \/ e.a # lib.N THEN "C02.ShuffleIsPartialPermutation" ELSE "">>
+\* How a randomized evaluation order is drawn (one choice() call, a permutation, several calls) is not part of C02 / C14: what
+\* counts is which rows were evaluated, in which order (EvaldOK below).  The recorded choice is only used to reconstruct the
+\* order of calls whose evaluations cannot be observed (real worker processes).
+OnChoice(e) == <<>>
 
 \* One uniform variate per evaluated sample.  A draw may cover every sample evaluated so far (fresh variates for all of them) or
 \* only the samples that have none yet (each sample keeps its variate): both are "an independent uniform draw from the sampler's
@@ -80,6 +81,10 @@ OnMap(e) ==
 (* ------------------------------ Return: rejection_sample ------------------------------ *)
 NPriorEff == IF c.nprior = 0 THEN lib.N ELSE c.nprior
 ExpectedEvald == Prefix(OrderOf(c), NPriorEff)
+\* the first NPriorEff rows of the evaluation order: library order, or - with randomize_prior_order - any order of distinct rows
+EvaldOK == IF c.randomize /\ c.observed
+           THEN Len(c.evald) = NPriorEff /\ Distinct(c.evald) /\ ValidIds(c.evald)
+           ELSE c.evald = ExpectedEvald
 GoodAll == Accept(c.ratio, c.u)
 GoodT == Truncate(GoodAll, c.maxpost)
 Full == MapRows(c.evald, GoodT)
@@ -117,7 +122,7 @@ OnReturnRejection(e) ==
   IF Len(c.lls) > 0 /\ ~InScope(c.lls) THEN <<>>      \* no finite likelihood among the evaluated samples: outside C02's quantifier
   ELSE IF e.raised THEN <<"C02.AcceptedInputRaises">>
   ELSE IF e.type # "JokerSamples" THEN <<"C02.ReturnsSamples">>
-  ELSE IF c.evald # ExpectedEvald THEN <<"C02.EvaluatesFirstNPriorInOrder">>
+  ELSE IF ~EvaldOK THEN <<"C02.EvaluatesFirstNPriorInOrder">>
   ELSE IF c.nuni < 1 \/ Len(c.u) # Len(c.lls) \/ Len(c.ratio) # Len(c.lls) THEN <<"C02.OneUniformPerEvaluatedSample">>
   ELSE <<RowsClause(e, Full, c.nlinear), UnalteredClause(e), AllClause(e), GroupClause(Full),
          IF c.drawsel # <<>> /\ c.drawsel # Full THEN "C05.DrawTasksCoverAcceptedRowsInOrder" ELSE "">>
@@ -149,8 +154,8 @@ OnReturnIterative(e) ==
   ELSE
      <<IF Len(c.evald) > Budget THEN "C14.BudgetRespected" ELSE "",
        IF ~Distinct(c.evald) THEN "C14.NoRowTwice" ELSE "",
-       IF c.evald # Prefix(OrderOf(c), Len(c.evald)) THEN "C14.EvaluatesInOrder" ELSE "",
-       IF c.choice # <<>> /\ Len(c.choice) # Budget THEN "C14.ShuffleCoversBudget" ELSE "",
+       IF (IF c.randomize THEN ~(Distinct(c.evald) /\ ValidIds(c.evald)) ELSE c.evald # Prefix(Identity(lib.N), Len(c.evald)))
+          THEN "C14.EvaluatesInOrder" ELSE "",
        IF Len(c.u) # Len(c.lls) THEN "C14.OneUniformPerEvaluatedSampleEachRound" ELSE "",
        IF Len(e.rows) > c.nreq * c.nlinear THEN "C14.AtMostRequested" ELSE "",
        IF Len(c.u) = Len(c.lls) /\ Len(LastGood) >= c.nreq /\ Len(e.rows) # c.nreq * c.nlinear THEN "C14.ExactlyRequestedWhenEnoughPass" ELSE "",
